@@ -109,6 +109,7 @@ static void family(rng& g, bool thorough, bool dists)
         c.cfg.densfam = fam % 3;
         c.dists = dists;
         c.plan = make_plan(g, 97);
+        c.md0 = fam == 1; // a map without coordinates is still asked for them (it is told the channel and the random numbers that way)
         run_mc<T>(c, make_engine(g, 223), w, iters);
     }
 }
